@@ -100,3 +100,19 @@ def run(F, R):
                     nlist += 1
     R.floor("R08.3", "validator call sites in expansions", n, 37)
     R.floor("R08.3", "list-mode validator call sites (inside a loop)", nlist, 2)
+
+    R.rule("R08.4", "validators are pure functions of (value, bound): no validator body references a static item or a once-cell / lazy initialiser "
+                    "(a static inside a generic function is shared by every instantiation and every call site)")
+    vb = [b for b in F.find(r"^async_graphql::validators::") if "::tests::" not in b.defp and "::test_" not in b.defp]
+    R.floor("R08.4", "validator bodies", len(vb), 10)
+    bad = []
+    for b in vb:
+        if "static" in str([s_[1] for _, s_ in b.all_stmts()]) and any("'static':" in str(s_[1]) or '"static"' in str(s_[1]) for _, s_ in b.all_stmts()):
+            bad.append((b, "static item"))
+        for c in b.calls():
+            if c.callee and re.search(r"OnceLock|OnceCell|LazyLock|Lazy|once_cell|thread_local|LocalKey", c.callee):
+                bad.append((b, c.callee.split("::")[-1]))
+            if any("'static'" in str(a) and isinstance(a, list) and a[0] == "k" and isinstance(a[1], dict) and "static" in a[1] for a in c.args):
+                bad.append((b, "static item"))
+    R.check(not bad, "R08.4", "validators:no-shared-state", bad[0][0].where() if bad else "-", "no statics / once cells in validators",
+            "validator %s keeps state in %s: the first pattern/bound seen is reused for other validators" % (bad[0][0].name if bad else "", bad[0][1] if bad else ""))
